@@ -395,6 +395,26 @@ func runCheck(eng *Eng, id, tier string, replay, keep bool, only string) int {
 	for _, l := range knownLines {
 		fmt.Println(l)
 	}
+	// bounded stand-ins (never counted as proved): real-code tests with a stated bound, for clauses no contract decides
+	var boundedOut []interface{}
+	if only == "" {
+		for _, bc := range loadBoundedChecks(id) {
+			res := runOverlayTest(eng.repo, filepath.Join(verifDir, bc.File), bc.Pkg, bc.Run, false)
+			verdict := "passed"
+			if res.failed {
+				verdict = "failed"
+				violations++
+				exit = 1
+				file := filepath.Join(verifDir, "replay", "out", sanitize(id+"__bounded__"+bc.Name)+".txt")
+				os.WriteFile(file, []byte("property:   "+id+"\nbounded check: "+bc.Name+"\nbound:      "+bc.Bound+"\n\nreplay on the real code:\n"+res.log+"\n\nstatus: fails-on-real-code\n"), 0o644)
+				fmt.Printf("VIOLATION property=%s replay=%s obligation=bounded[%s]\n", id, file, bc.Name)
+			} else if !res.built {
+				verdict = "did not run"
+				undecided = append(undecided, "bounded check "+bc.Name+" did not run: "+truncate(res.log, 300))
+			}
+			boundedOut = append(boundedOut, map[string]interface{}{"name": bc.Name, "clause": bc.Clause, "bound": bc.Bound, "verdict": verdict, "counted_as_proved": false, "test": bc.File})
+		}
+	}
 	if len(undecided) > 0 {
 		for _, u := range undecided {
 			if exit == 0 {
@@ -465,6 +485,7 @@ func runCheck(eng *Eng, id, tier string, replay, keep bool, only string) int {
 			"failed_obligations":       failedNames,
 			"undecided":                undecided,
 			"known_findings_reported":  knownLines,
+			"bounded_checks":           boundedOut,
 			"integers":                 "mathematical Int with a no-overflow obligation at every arithmetic site (64-bit vectors where a contract says 'mode bv64')",
 			"contract_files":           relFiles(eng.con.Files),
 		}}
@@ -619,4 +640,33 @@ func (t *Task) proveLemma(l *Lemma) {
 	}
 	goal := env.evalBool(expr, l.Src)
 	t.oblige("lemma", "lemma#"+l.Label, l.Label, tTrue, goal, l.Src, l.Expr)
+}
+
+// bounded_checks.json (committed): bounded stand-ins per property.
+type BoundedCheck struct {
+	Property string `json:"property"`
+	Name     string `json:"name"`
+	Clause   string `json:"clause"`
+	Bound    string `json:"bound"`
+	File     string `json:"file"`
+	Pkg      string `json:"pkg"`
+	Run      string `json:"run"`
+}
+
+func loadBoundedChecks(id string) []BoundedCheck {
+	var all struct {
+		Checks []BoundedCheck `json:"checks"`
+	}
+	data, err := os.ReadFile(filepath.Join(verifDir, "bounded_checks.json"))
+	if err != nil {
+		return nil
+	}
+	json.Unmarshal(data, &all)
+	var out []BoundedCheck
+	for _, c := range all.Checks {
+		if c.Property == id {
+			out = append(out, c)
+		}
+	}
+	return out
 }
